@@ -50,6 +50,9 @@ var c13Cases = []faCase{
 	{name: "assign-with-leading-elision",
 		patch: "@@\n@@\n-..., err := f()\n+..., err = f()\n",
 		minus: "package p\n\nfunc g() {\n\t⟦«d1:a, b», err := f()⟧\n\tuse(a, b, err)\n}\n\nfunc h() {\n\tpre()\n\t⟦«d1:c», err := f()⟧\n}\n"},
+	{name: "raw-string-across-context-line",
+		patch: "@@\nvar x expression\n@@\n-old(x, `a\n+renewed(x, `a\n b`)\n",
+		minus: "package p\n\nvar v = ⟦old(«x:1», `a\n b`)⟧\n\nvar w = ⟦old(«x:k.l», `a\n b`)⟧\n"},
 	{name: "multi-line-call",
 		patch: "@@\nvar a, b expression\nvar c expression\n@@\n-pick(a,\n-  b, c)\n+pick2(c,\n+  a)\n",
 		minus: "package p\n\nvar v = ⟦pick(«a:1», «b:x», «c:z[0]»)⟧\n"},
@@ -216,6 +219,16 @@ func c13Transform(ls []c13Line, kind int) (out []c13Line, texts map[int]string, 
 		return out, texts, fmt.Sprintf("comment line inserted before line %d", at), true
 	case 1: // a blank or whitespace-only line anywhere
 		at := nd.Choose("at", len(ls)+1)
+		ticks := 0
+		for _, l := range ls[:at] {
+			if l.kind == c13Body && !strings.HasPrefix(l.text, "+") { // the '-' side's view of the text
+				ticks += strings.Count(l.text, "`")
+			}
+		}
+		if ticks%2 == 1 {
+			// inside a raw string literal that spans lines a blank line is part of the string
+			return nil, nil, "", false
+		}
 		t := ""
 		if nd.Choose("blankform", 2) == 1 {
 			ws := nd.Byte("ws")
@@ -266,6 +279,12 @@ func c13Transform(ls []c13Line, kind int) (out []c13Line, texts map[int]string, 
 		out = append(out, ls[i+1:]...)
 		return out, texts, fmt.Sprintf("context line %d written as a pair", i), true
 	case 4: // re-indent the pattern on both sides
+		for _, l := range ls {
+			if l.kind == c13Body && strings.Count(l.text, "`")%2 == 1 {
+				// a raw string literal spans lines: indenting its lines changes the string, not the layout
+				return nil, nil, "", false
+			}
+		}
 		ind := []string{" ", "  ", "\t"}[nd.Choose("indent", 3)]
 		out = append([]c13Line{}, ls...)
 		for i, l := range out {
